@@ -17,7 +17,8 @@
 //!       plant an unparsable key file under id 00…/ff… (listed first / last), `y0|yf` a key file whose `data` is 5 bytes,
 //!       `o<p>` open with password p, `m` open with the master key.  -> `ok <result per o/m>` (`ok` | `err:Kind`)
 //!       Password numbers: 0..9 = `pw<n>`; 10.. = a table of passwords with leading / trailing / only white space, empty, inner blank,
-//!       non-ASCII (pairwise distinct strings, several trim to another table entry) — see `password`.
+//!       non-ASCII (pairwise distinct strings, several trim to another table entry) — see `password`; 100..999 = `pw<n>` (the
+//!       many-key scripts: 21–40 key files, every added password must open whatever its key file's place in the listing).
 //!  * `initpw <p> <q,…>`    real `Repository::init` with password p, then open with each q -> `ok <result per q>`
 //!  * `scan <seed>`         oracle only (model: `ok`): backups + prune history with planted needles (names, contents, json
 //!       field names); no stored non-key file may contain a needle; all nonces (files, blobs, pack headers) pairwise distinct.
@@ -31,6 +32,9 @@
 //!       vs the model's table `Model/WriteSites.lean` (theorem `every_non_key_write_is_encrypted`) -> `ok <lines joined by ;>`
 //!  * `tamper <seed>`       oracle only: every stored non-key file × {bit flips at first/last/middle/random positions,
 //!       truncation, extension}: the affected read fails or returns the original content, never other content.
+//!  * `swap index|pack|key <seed>` exchange the stored bytes of two files of that type, then read everything: every read fails or
+//!       returns what it returned before -> `ok`;  `swap packtwin <seed>`: two data packs with identical layout exchanged -> the read
+//!       returns the OTHER file's content (`oracle-fail:substitution-undetected`, known finding: blob ids are not verified on read)
 //!  * `swap snapshot <seed>` exchange the stored bytes of two snapshot files and read the first id: returns the second
 //!       snapshot without error -> `oracle-fail:substitution-undetected` (known finding, DESIGN §7 #12).
 use std::collections::BTreeSet;
@@ -58,6 +62,12 @@ fn pick_pw(rng: &mut Rng, plain: u64) -> u64 {
         if rng.chance(1, 3) { t.unwrap_or(w) } else { w }
     } else {
         rng.below(plain)
+    }
+}
+
+fn shuffle<T>(rng: &mut Rng, v: &mut [T]) {
+    for i in (1..v.len()).rev() {
+        v.swap(i, rng.below(i as u64 + 1) as usize);
     }
 }
 
@@ -150,6 +160,63 @@ pub fn generate(thorough: bool, rng: &mut Rng, ops: &mut Vec<String>, stats: &mu
         stats.hit("keys.removal-script");
         ops.push(format!("c04 keys {shape}"));
     }
+    // MANY key files (more than any plausible "try at most N keys" bound): 21..=40 planted low-cost key files with pairwise distinct
+    // passwords; EVERY added password is tried (so also the one whose key file is listed last — listing order = order of the
+    // random key ids), then a few are removed and all are tried again, plus wrong passwords and the master key.
+    for j in 0..(if thorough { 30 } else { 4 }) {
+        let n = if j == 0 { 21 } else { 21 + rng.below(20) };
+        let base = 100 + rng.below(800);
+        let mut s: Vec<String> = (0..n).map(|i| format!("a{}", base + i)).collect();
+        if rng.chance(1, 3) {
+            // one of the passwords a second time (two key files for it) and one white-space password among them
+            s.push(format!("a{}", base + rng.below(n)));
+            s.push(format!("a{}", rng.pick(&WS_TRIMS).0));
+        }
+        let mut order: Vec<u64> = (0..n).collect();
+        shuffle(rng, &mut order);
+        s.extend(order.iter().map(|i| format!("o{}", base + i)));
+        s.push(format!("o{}", base + n));
+        s.push("m".into());
+        let removed = rng.below(4);
+        for _ in 0..removed {
+            s.push(format!("r{}", rng.below(n)));
+        }
+        if removed > 0 {
+            shuffle(rng, &mut order);
+            s.extend(order.iter().map(|i| format!("o{}", base + i)));
+        }
+        s.push(format!("o{}", pick_pw(rng, 4)));
+        stats.hit("keys.many-keys");
+        stats.add("keys.many-keys.files", n);
+        ops.push(format!("c04 keys {}", s.join(",")));
+    }
+    // thorough: REAL `add_key` beyond 20 key files (default scrypt cost: every open tries the key files in listing order until one fits)
+    if thorough {
+        for _ in 0..2 {
+            let base = 100 + rng.below(800);
+            let n = 21 + rng.below(3);
+            let mut s: Vec<String> = (0..n).map(|i| format!("A{}", base + i)).collect();
+            let mut order: Vec<u64> = (0..n).collect();
+            shuffle(rng, &mut order);
+            s.extend(order.iter().map(|i| format!("o{}", base + i)));
+            s.push(format!("o{}", base + n));
+            s.push("m".into());
+            stats.hit("keys.many-keys-real");
+            ops.push(format!("c04 keys {}", s.join(",")));
+        }
+    }
+    // a real `add_key` on top of 20..=30 planted ones, opened with its password (quick: one derivation per listed real key)
+    for _ in 0..(if thorough { 6 } else { 1 }) {
+        let base = 100 + rng.below(800);
+        let n = 20 + rng.below(11);
+        let mut s: Vec<String> = (0..n).map(|i| format!("a{}", base + i)).collect();
+        s.push(format!("A{}", base + n));
+        s.push(format!("o{}", base + n));
+        s.push(format!("o{}", base + rng.below(n)));
+        s.push(format!("o{}", base + n + 1));
+        stats.hit("keys.many-keys-one-real");
+        ops.push(format!("c04 keys {}", s.join(",")));
+    }
     // REAL `add_key` / `init` (default scrypt cost, ≈ 0.4 s per derivation) with passwords that carry white space / are empty /
     // non-ASCII: exactly the added passwords open; what they trim to, and other paddings of it, do not (unless added too)
     for _ in 0..(if thorough { 30 } else { 5 }) {
@@ -185,6 +252,14 @@ pub fn generate(thorough: bool, rng: &mut Rng, ops: &mut Vec<String>, stats: &mu
         stats.hit("tamper");
     }
     ops.push(format!("c04 swap snapshot {}", rng.below(1 << 40)));
+    // exchange two stored files of the same type, for every type: index / pack / key files (reads fail or are unchanged), and
+    // the border case of two data packs with identical layout
+    for kind in ["index", "pack", "pack", "key", "packtwin"] {
+        for _ in 0..(if thorough { 8 } else { 1 }) {
+            ops.push(format!("c04 swap {kind} {}", rng.below(1 << 40)));
+            stats.hit(format!("swap.{kind}"));
+        }
+    }
     ops.push("c04 sites".to_string());
     stats.hit("sites");
 }
@@ -432,7 +507,7 @@ fn password(arg: &str) -> Option<String> {
         " pw1", "pw1 ", "pw1\n", "\tpw1\t", "pw1\r\n", " ", "", "\n", "pw 1", "пароль", "пароль ", "\u{a0}pw2", "pw2\u{2003}", "p\u{301}w2", "  ",
         "pw1  ",
     ];
-    if i < 10 { Some(format!("pw{i}")) } else { WS.get(i - 10).map(|s| (*s).to_string()) }
+    if i < 10 || (100..1000).contains(&i) { Some(format!("pw{i}")) } else { WS.get(i.checked_sub(10)?).map(|s| (*s).to_string()) }
 }
 /// numbers of the white-space table and, for each, the number of the password it trims to (if that one is in the table)
 const WS_TRIMS: [(u64, Option<u64>); 16] = [
@@ -1099,6 +1174,120 @@ fn exec_swap(seed: u64) -> String {
     }
 }
 
+/// `swap index|pack|key <seed>`: exchange the stored bytes of two files of that type (a seeded pair) in a repository with several
+/// backups; then every snapshot is read (ls + dump of every file): each read must FAIL or return exactly what it returned before
+/// the exchange.  (Index files are all read and merged, key files are all tried — exchanging them changes nothing; a blob read from
+/// an exchanged pack normally fails its MAC because offset / length belong to the other pack.)
+fn exec_swap_any(tpe: FileType, seed: u64) -> String {
+    let mut rng = Rng::new(seed);
+    let (h, snaps) = match build_repo(&mut rng, false) {
+        Ok(x) => x,
+        Err(e) => return e,
+    };
+    if tpe == FileType::Key {
+        // the repository was initialised with the master key: add two key files
+        for p in ["pw-swap-1", "pw-swap-2"] {
+            if let Err(e) = plant_key(&h, p, &mut rng) {
+                return e;
+            }
+        }
+    }
+    let before = match read_everything(&h, &snaps) {
+        Ok(b) => b,
+        Err(e) => return format!("oracle-fail:unreadable-before-swap:{e}"),
+    };
+    let ids = h.be.ids(tpe);
+    if ids.len() < 2 {
+        return "ok".into();
+    }
+    let i = rng.below(ids.len() as u64) as usize;
+    let mut j = rng.below(ids.len() as u64 - 1) as usize;
+    if j >= i {
+        j += 1;
+    }
+    let (a, b) = (ids[i], ids[j]);
+    let (ba, bb) = (h.be.get(tpe, &a).unwrap(), h.be.get(tpe, &b).unwrap());
+    h.be.put_raw(tpe, a, bb);
+    h.be.put_raw(tpe, b, ba);
+    if tpe == FileType::Key {
+        for p in ["pw-swap-1", "pw-swap-2"] {
+            if open_pw(&h, p) != "ok" {
+                return "oracle-fail:swapped-key-files-lock-out".into();
+            }
+        }
+        if open_pw(&h, "pw-swap-3") == "ok" {
+            return "oracle-fail:wrong-password-opens".into();
+        }
+    }
+    match read_everything(&h, &snaps) {
+        Err(_) => "ok".into(),
+        Ok(after) if after == before => "ok".into(),
+        Ok(_) => "oracle-fail:substitution-undetected".into(),
+    }
+}
+
+/// `swap packtwin <seed>`: the border case of pack substitution — two data packs with the SAME layout (one blob of equal stored
+/// length each: two incompressible files of equal size, compression off, a pack per blob).  After exchanging their bytes the blob
+/// at (offset, length) of pack A is a complete, valid message — of the other file.  A read that does not compare the blob's hash
+/// with its id returns the other file's content without error (`oracle-fail:substitution-undetected`; `check --read-data` must
+/// at least report it: `oracle-fail:check-blind` otherwise).
+fn exec_swap_packtwin(seed: u64) -> String {
+    let mut rng = Rng::new(seed);
+    let cfg = ConfigOptions::default().set_compression(0).set_datapack_size(bytesize::ByteSize(1)).set_datapack_growfactor(0u32);
+    let (h, _r) = match RepoHandle::init_nocache(MemBackend::new(), None, &cfg) {
+        Ok(x) => x,
+        Err(e) => return errkind(&e),
+    };
+    let n = 200 + rng.below(3000) as usize;
+    let src = MemSource::new(vec![SrcEntry::file(&[b"a"], &rng.bytes(n)), SrcEntry::file(&[b"b"], &rng.bytes(n))]);
+    let snap = match snapshot_opts().to_snapshot() {
+        Ok(s) => s,
+        Err(e) => return errkind(&e),
+    };
+    let snap = match repo::backup_nocache(&h, &src, &BackupOptions::default(), snap) {
+        Ok(s) => s,
+        Err(e) => return errkind(&e),
+    };
+    let snaps = vec![snap];
+    let before = match read_everything(&h, &snaps) {
+        Ok(b) => b,
+        Err(e) => return format!("oracle-fail:unreadable-before-swap:{e}"),
+    };
+    // the two data packs: one blob each, equal size
+    let repo = match h.open_nocache() {
+        Ok(r) => r,
+        Err(e) => return errkind(&e),
+    };
+    let dbe = rustic_core::verif::repository::dbe(&repo);
+    let mut data_packs: Vec<Id> = vec![];
+    for id in h.be.ids(FileType::Index) {
+        match dbe.get_file::<IndexFile>(&rustic_core::repofile::IndexId::from(id)) {
+            Ok(f) => data_packs.extend(f.packs.iter().filter(|p| p.blobs.len() == 1 && p.blobs[0].tpe == rustic_core::repofile::BlobType::Data).map(|p| Id::from(*p.id))),
+            Err(e) => return errkind(&e),
+        }
+    }
+    drop(repo);
+    if data_packs.len() != 2 {
+        return format!("oracle-fail:setup-twin-packs:{}", data_packs.len());
+    }
+    let (a, b) = (data_packs[0], data_packs[1]);
+    let (ba, bb) = (h.be.get(FileType::Pack, &a).unwrap(), h.be.get(FileType::Pack, &b).unwrap());
+    if ba.len() != bb.len() {
+        return "oracle-fail:setup-twin-packs-differ-in-size".into();
+    }
+    h.be.put_raw(FileType::Pack, a, bb);
+    h.be.put_raw(FileType::Pack, b, ba);
+    let undetected = match read_everything(&h, &snaps) {
+        Err(_) => false,
+        Ok(after) => after != before,
+    };
+    match repo::check_errors_nocache(&h, true) {
+        Some(0) => return "oracle-fail:check-blind".into(),
+        Some(_) | None => {}
+    }
+    if undetected { "oracle-fail:substitution-undetected".into() } else { "ok detected".into() }
+}
+
 pub fn exec(t: &[&str]) -> String {
     let t: Vec<String> = t.iter().map(|s| (*s).to_string()).collect();
     guarded(move || match t.iter().map(String::as_str).collect::<Vec<_>>().as_slice() {
@@ -1121,6 +1310,10 @@ pub fn exec(t: &[&str]) -> String {
         ["hist", seed] => seed.parse::<u64>().map_or("bad-op".into(), exec_hist),
         ["tamper", seed] => seed.parse::<u64>().map_or("bad-op".into(), exec_tamper),
         ["swap", "snapshot", seed] => seed.parse::<u64>().map_or("bad-op".into(), exec_swap),
+        ["swap", "index", seed] => seed.parse::<u64>().map_or("bad-op".into(), |s| exec_swap_any(FileType::Index, s)),
+        ["swap", "pack", seed] => seed.parse::<u64>().map_or("bad-op".into(), |s| exec_swap_any(FileType::Pack, s)),
+        ["swap", "key", seed] => seed.parse::<u64>().map_or("bad-op".into(), |s| exec_swap_any(FileType::Key, s)),
+        ["swap", "packtwin", seed] => seed.parse::<u64>().map_or("bad-op".into(), exec_swap_packtwin),
         _ => "bad-op".into(),
     })
 }
